@@ -561,6 +561,11 @@ pub fn unknown_conv(u: &Unknown, data: &[u8], pfx: &str, panics: &mut Vec<String
                 let pkt = Packet::from(Unknown::parse(u.data()).unwrap());
                 conv_res(pkt.try_as::<$ty>(), |p| $view(p, data, &format!("{pfx}conv.{}_pkt.", $name)), &mut pp)
             });
+            // ... and converted by value (TryFrom<Packet>)
+            row.put(&format!("{}_pktval", $name), || {
+                let pkt = Packet::from(Unknown::parse(u.data()).unwrap());
+                conv_res(<$ty>::try_from(pkt), |p| $view(p, data, &format!("{pfx}conv.{}_pktval.", $name)), &mut pp)
+            });
         };
     }
     cv!("sr", SenderReport, sr_view);
